@@ -35,6 +35,8 @@ POOL = {
     "G": [("n", 0, ("struct", "In")), ("o", 1, ("u", 1))],
     "H": [("h", 0, ("u", 1))],
     "K": [("k1", 1, ("u", 5)), ("k0", 0, ("i", 16))],          # ids not in declaration order
+    "Msg2": [("m", 0, ("u", 16))],                             # names longer than their bus tag / than a bus tag can be
+    "EngineStatus": [("rpm", 0, ("u", 16)), ("t", 1, ("i", 8))],
 }
 IN = ("In", [("p", 0, ("u", 5)), ("q", 1, ("i", 11))])
 
@@ -66,6 +68,7 @@ def c18_family(tier, sd=0):
         mk([("K", 7, "b1"), ("D", 8, None)], [("other", "G", None, {"id": 9, "bus": "b1"}, [])]),   # bus-less and non-CAN bindings
         mk([("G", 2047, "zzzz"), ("F", 2046, "zzz")]),
         mk([("D", 300, "CAN1"), ("C", 3, "_"), ("H", 30, "CAN1")]),
+        mk([("Msg2", 77, "c"), ("EngineStatus", 78, "pt"), ("B", 79, "Msg2")]),
     ]
     if tier == "thorough":
         rng = random.Random(sd)
@@ -685,7 +688,7 @@ def run_c18(tier: str) -> int:
                        "a null json is handed through Encode; its copies and destructors are interpreted",
                        "oracle: refspec canonical bytes; bus tag = the bus name followed by NUL bytes up to 4",
                        "counterexamples are replayed through fcp::can::Can and real JSON, compiled with clang++ and g++"]
-    dyn = fam if tier == "thorough" else [fam[1], fam[2], fam[4]]
+    dyn = fam if tier == "thorough" else [fam[1], fam[2], fam[4], fam[7]]
     cases = [("dyn", s, tier) for s in dyn] + [("static", s, tier) for s in fam]
     for r in pmap(_dispatch, cases):
         rep.merge(r)
